@@ -261,6 +261,19 @@ def check_case(root, spec, pp, cfg, out, armed):
         except util.HarnessBudget:
             continue
         out.evaluations += 1
+        if ci % 2 == 0 and not cfg.get('follow') and '\n' not in c:
+            # the same candidate named absolutely against `/**/<last component>`: the globstar starts at the file system root and
+            # the candidate reaches its last component through a symlinked directory
+            try:
+                with util.watchdog(5):
+                    ma = G.globmatch(os.path.join(root, c), '/**/' + G.escape(comps[-1]), flags=(fl & ~G.MATCHBASE) | G.GLOBSTAR | G.REALPATH | G.DOTGLOB)
+            except util.HarnessBudget:
+                ma = False
+            out.evaluations += 1
+            if ma:
+                out.violation(dict(case, problem='globmatch(REALPATH) accepted an absolute path below a symlink traversed by the `**` of `/**/name`',
+                                   name=os.path.join(root, c), pattern_used='/**/' + G.escape(comps[-1])), size=len(c), bucket=('realpath-abs',))
+                return res
         if m and forced_through_link(comps, lf, segs, full=True, icase=icase):
             cs = dict(case, problem='globmatch(REALPATH) accepted a path below a symlink traversed by `**`', name=c)
             cs['root_given_as'] = ['root_dir', 'dir_fd', 'cwd'][how]
